@@ -479,6 +479,46 @@ Definition buf_write_byte_ref (s_buf : gslice) (s_off s_lastRead : Z) (f_isnil :
     | BPanic p_ st_ => let '(s_buf, s_off, s_lastRead) := st_ in BPanic p_ (s_buf, s_off, s_lastRead)
     end.
 
+(* PrintCtx.WriteRune  (BOk results state | BRange state | BPanic v state) *)
+Definition buf_write_rune_ref (s_buf : gslice) (s_off s_lastRead : Z) (f_isnil : gslice -> bool) (f_growSlice : gslice -> Z -> bres gslice unit) (r : Z) : bres (Z * err) bstate :=
+  let n := 0 in
+  let err := ENil in
+  if ((r mod 4294967296) <? 128)
+  then match buf_write_byte_ref s_buf s_off s_lastRead f_isnil f_growSlice (r mod 256) with
+    | BOk r_ st_ => let '(s_buf, s_off, s_lastRead) := st_ in let _ := r_ in
+      BOk ((1, ENil)) (s_buf, s_off, s_lastRead)
+    | BRange st_ => let '(s_buf, s_off, s_lastRead) := st_ in BRange (s_buf, s_off, s_lastRead)
+    | BPanic p_ st_ => let '(s_buf, s_off, s_lastRead) := st_ in BPanic p_ (s_buf, s_off, s_lastRead)
+    end
+  else let s_lastRead := 0 in
+  match buf_try_grow_ref s_buf s_off s_lastRead 4 with
+    | BOk r_ st_ => let '(s_buf, s_off, s_lastRead) := st_ in let '(m, ok) := r_ in
+      if (negb ok)
+      then match buf_grow_int_ref s_buf s_off s_lastRead f_isnil f_growSlice 4 with
+      | BOk r_ st_ => let '(s_buf, s_off, s_lastRead) := st_ in let m := r_ in
+        match sl_to s_buf m with
+        | None => BRange (s_buf, s_off, s_lastRead)
+        | Some r1_ => match sl_append_in r1_ (encode_rune r) with
+          | None => BRange (s_buf, s_off, s_lastRead)
+          | Some r2_ => let s_buf := r2_ in
+            BOk ((((sl_len s_buf) - m), ENil)) (s_buf, s_off, s_lastRead)
+          end
+        end
+      | BRange st_ => let '(s_buf, s_off, s_lastRead) := st_ in BRange (s_buf, s_off, s_lastRead)
+      | BPanic p_ st_ => let '(s_buf, s_off, s_lastRead) := st_ in BPanic p_ (s_buf, s_off, s_lastRead)
+      end
+      else match sl_to s_buf m with
+      | None => BRange (s_buf, s_off, s_lastRead)
+      | Some r3_ => match sl_append_in r3_ (encode_rune r) with
+        | None => BRange (s_buf, s_off, s_lastRead)
+        | Some r4_ => let s_buf := r4_ in
+          BOk ((((sl_len s_buf) - m), ENil)) (s_buf, s_off, s_lastRead)
+        end
+      end
+    | BRange st_ => let '(s_buf, s_off, s_lastRead) := st_ in BRange (s_buf, s_off, s_lastRead)
+    | BPanic p_ st_ => let '(s_buf, s_off, s_lastRead) := st_ in BPanic p_ (s_buf, s_off, s_lastRead)
+    end.
+
 (* ---- ReadFrom: the reader is a script of answers (Model/Buffer.v).  r.Read(p) with p = s.buf[i:cap(s.buf)]:
    the window starts at cap(s.buf) - len(p) of the array of s.buf; the answer's bytes (at most len(p)) are
    stored there, i.e. in the array of s.buf, whose length is unchanged ---- *)
